@@ -108,6 +108,14 @@ SIGNATURES = {"override_desync": _sig_override_desync, "override_unnegotiated": 
 
 
 def build_model():
+    work = getattr(fw, "WORK", fw.VERIF)
+    if work != fw.VERIF:
+        # isolated work directory of a run against another source tree: ocaml/C11/.stamp is copied from /verif while
+        # bin/modelrun_C11 may be left over from an earlier run there -> never trust the copied stamp
+        try:
+            os.remove(os.path.join(work, "ocaml", "C11", ".stamp"))
+        except OSError:
+            pass
     return fw.ocaml_model("C11", ["Model/WsCodec.vo", "Model/WsSend.vo"])
 
 
